@@ -162,7 +162,7 @@ def run(tier):
                 fcases.append((m, b, fc, pos, text, ftext, lay))
     for n, (m, b, fc, pos, text, ftext, lay) in enumerate(fcases):
         mm = faults.set_text(m, b, lay % ftext)
-        jobs.append({"id": "F%d" % n, "entry": "xml_buffer", "text": xmlgen.render_xml(docgen.to_xmlgen(mm)), "structure": False})
+        jobs.append({"id": "F%d" % n, "entry": "xml_buffer", "text": xmlgen.render_xml(docgen.to_xmlgen(mm), comments=n % 3), "structure": False})      # a third of the documents with an empty, a third with a filled comments label in front
     # plain-text input: the XTA rendering with a fault in one label
     xcases = []
     for m in cand[:150 if quick else 1500]:
@@ -223,7 +223,9 @@ def run(tier):
         x = jobs[[j["id"] for j in jobs].index("F%d" % n)]["text"] if False else None
         doc = r["dump"]["doc"]
         path = faults.block_path(m, b)
-        xml_text = xmlgen.render_xml(docgen.to_xmlgen(faults.set_text(m, b, lay % ftext)))
+        if n % 3 and "/label[" in path:
+            path = re.sub(r"/label\[(\d+)\]$", lambda mo: "/label[%d]" % (int(mo.group(1)) + 1), path)       # the comments label comes first
+        xml_text = xmlgen.render_xml(docgen.to_xmlgen(faults.set_text(m, b, lay % ftext)), comments=n % 3)
         root = ET.fromstring(xml_text.split("?>", 1)[1].split(">", 1)[1] if xml_text.startswith("<?xml") and "<!DOCTYPE" in xml_text else xml_text)
         rep = {"model": m, "block": list(b), "path": path, "fault": fc, "token": pos, "original": text, "faulted": lay % ftext, "xml": xml_text}
         nf += 1
